@@ -13,9 +13,11 @@ package main
 
 import (
 	"bytes"
+	"encoding/binary"
 	"fmt"
 	"image"
 	"image/color"
+	"strings"
 	"time"
 
 	webp "github.com/deepteams/webp"
@@ -303,7 +305,8 @@ func c16Check(c *Ctx, f *c16File) {
 			want := o.DecModel + "," + o.Dec
 			if o.Cfg != want {
 				key := "config-disagrees-with-decode"
-				if p.ErrClass == 0 && len(p.Frames) > 0 && !p.Frames[0].AlphaNil && len(p.Frames[0].Alpha) == 0 && !p.Frames[0].IsLossless {
+				if p.ErrClass == 0 && len(p.Frames) > 0 && !p.Frames[0].AlphaNil && len(p.Frames[0].Alpha) == 0 && !p.Frames[0].IsLossless &&
+					o.Cfg == "NRGBA,"+o.Dec && o.DecModel == "YCbCr" {
 					key = "config-colormodel-zero-length-alph"
 				}
 				c.Violate(key, fmt.Sprintf("DecodeConfig reports %s, Decode returns %s (%s)", o.Cfg, want, f.Kind), replay)
@@ -396,6 +399,199 @@ func animFile(c *Ctx, rng *Rand, w, h, nframes int, lossless bool, loop int, met
 		return nil, false
 	}
 	return out.Bytes(), true
+}
+
+func le24b(v int) []byte { return []byte{byte(v), byte(v >> 8), byte(v >> 16)} }
+
+func anmfPayload(x, y, w, h, dur int, bits byte, sub []byte) []byte {
+	var b []byte
+	b = append(b, le24b(x/2)...)
+	b = append(b, le24b(y/2)...)
+	b = append(b, le24b(w-1)...)
+	b = append(b, le24b(h-1)...)
+	b = append(b, le24b(dur)...)
+	b = append(b, bits)
+	return append(b, sub...)
+}
+
+// handAnim assembles an animated container from a random plan; wf reports whether the plan is
+// a well-formed animation (flag set, ANIM first, every frame a valid [ALPH] VP8 / VP8L inside the canvas).
+func handAnim(p *c16Parts, r *Rand) (data []byte, wf bool, kind string) {
+	wf = true
+	nf := r.Pick(0, 1, 1, 2, 3)
+	flagAnim := r.Intn(8) != 0
+	animMode := r.Pick(0, 0, 0, 0, 1, 2, 3, 4) // 0 normal, 1 absent, 2 short(4), 3 long(8), 4 after first frame
+	loop := r.Pick(0, 1, 7, 65535)
+	offx, offy := 2*r.Intn(3), 2*r.Intn(3)
+	cw, ch := p.W+offx+r.Intn(3), p.H+offy+r.Intn(3)
+	flags := byte(0)
+	if flagAnim {
+		flags |= 0x02
+	} else {
+		wf = false
+	}
+	if r.Bool() {
+		flags |= 0x10
+	}
+	body := chunkBytes("VP8X", vp8xPayload(flags, cw, ch))
+	anim := make([]byte, 6)
+	anim[0], anim[1], anim[2], anim[3] = byte(r.U64()), byte(r.U64()), byte(r.U64()), byte(r.U64())
+	anim[4], anim[5] = byte(loop), byte(loop>>8)
+	animChunk := chunkBytes("ANIM", anim)
+	switch animMode {
+	case 2:
+		animChunk = chunkBytes("ANIM", anim[:4])
+	case 3:
+		animChunk = chunkBytes("ANIM", append(append([]byte(nil), anim...), 9, 9))
+	}
+	if animMode != 0 && animMode != 3 {
+		wf = false
+	}
+	if animMode == 0 || animMode == 2 || animMode == 3 {
+		body = append(body, animChunk...)
+	}
+	if r.Intn(5) == 0 {
+		body = append(body, chunkBytes("UNKN", []byte("odd"))...)
+	}
+	if nf == 0 {
+		wf = false
+	}
+	kinds := ""
+	for i := 0; i < nf; i++ {
+		fk := r.Pick(0, 0, 1, 1, 2, 3, 4, 5, 6, 7)
+		var sub []byte
+		fw, fh := p.W, p.H
+		switch fk {
+		case 0:
+			sub = chunkBytes("VP8 ", p.VP8)
+		case 1:
+			sub = chunkBytes("VP8L", p.VP8LAlpha)
+		case 2:
+			sub = append(chunkBytes("ALPH", p.ALPH), chunkBytes("VP8 ", p.VP8A)...)
+		case 3: // no sub-chunks at all
+			wf = false
+		case 4: // ALPH only
+			sub = chunkBytes("ALPH", p.ALPH)
+			wf = false
+		case 5: // ALPH + VP8L
+			sub = append(chunkBytes("ALPH", p.ALPH), chunkBytes("VP8L", p.VP8L)...)
+			wf = false
+		case 6: // unknown sub-chunk first
+			sub = append(chunkBytes("UNKN", []byte{1}), chunkBytes("VP8 ", p.VP8)...)
+			wf = false
+		case 7: // sub-chunk cut short inside the ANMF payload
+			c := chunkBytes("VP8 ", p.VP8)
+			sub = c[:len(c)-3]
+			wf = false
+		}
+		kinds += fmt.Sprint(fk)
+		bits := byte(r.Intn(4))
+		if r.Intn(6) == 0 {
+			bits |= 0xf0 // reserved bits set
+		}
+		pl := anmfPayload(offx, offy, fw, fh, r.Pick(0, 40, 16777215), bits, sub)
+		if r.Intn(10) == 0 {
+			pl = pl[:r.Intn(16)] // ANMF shorter than its 16-byte header
+			wf = false
+		}
+		body = append(body, chunkBytes("ANMF", pl)...)
+		if i == 0 && animMode == 4 {
+			body = append(body, animChunk...)
+		}
+		if r.Intn(8) == 0 {
+			body = append(body, chunkBytes("EXIF", []byte("e"))...)
+		}
+	}
+	if r.Intn(10) == 0 { // a top-level image chunk inside an animation
+		body = append(body, chunkBytes("VP8 ", p.VP8)...)
+		wf = false
+	}
+	return riffFile(body), wf, fmt.Sprintf("handanim-flag=%v-anim%d-frames=%s", flagAnim, animMode, kinds)
+}
+
+// edgeFiles: one hand-made file per error branch / limit of the container parser.
+func edgeFiles(p *c16Parts, thorough bool) []c16File {
+	var out []c16File
+	add := func(kind string, data []byte) {
+		// files with ANIM/ANMF structure are not stills, whatever their flag says
+		out = append(out, c16File{Kind: "edge-" + kind, Data: data, Animated: strings.HasPrefix(kind, "an") || strings.HasPrefix(kind, "frames-")})
+	}
+	withSize := func(data []byte, size uint32) []byte {
+		d := append([]byte(nil), data...)
+		binary.LittleEndian.PutUint32(d[4:], size)
+		return d
+	}
+	vp8 := chunkBytes("VP8 ", p.VP8)
+	simple := riffFile(vp8)
+	add("riff-size-7", withSize(simple, 7))
+	add("riff-size-8", withSize(simple, 8))
+	add("riff-size-too-large", withSize(simple, 0xfffffff7))
+	add("riff-size-max-payload", withSize(simple, 0xfffffff6))
+	add("riff-size-short-of-chunk", withSize(simple, uint32(len(simple)-8-2)))
+	add("riff-size-beyond-data", withSize(simple, uint32(len(simple)+100)))
+	add("trailing-garbage", append(append([]byte(nil), simple...), []byte("garbage-after-riff-end")...))
+	add("first-chunk-unknown", riffFile(chunkBytes("JUNK", []byte("12345678"))))
+	add("first-chunk-alph", riffFile(append(chunkBytes("ALPH", p.ALPH), vp8...)))
+	// chunk size fields
+	huge := append([]byte("VP8 \xff\xff\xff\xff"), p.VP8...)
+	add("chunk-size-ffffffff", riffFile(huge))
+	huge2 := append([]byte("VP8 \xf6\xff\xff\xff"), p.VP8...)
+	add("chunk-size-max-payload", riffFile(huge2))
+	// VP8 / VP8L headers
+	bad := func(mut func([]byte)) []byte { d := append([]byte(nil), p.VP8...); mut(d); return riffFile(chunkBytes("VP8 ", d)) }
+	add("vp8-not-keyframe", bad(func(d []byte) { d[0] |= 1 }))
+	add("vp8-bad-signature", bad(func(d []byte) { d[4] = 0 }))
+	add("vp8-zero-width", bad(func(d []byte) { d[6], d[7] = 0, d[7]&0xc0 }))
+	add("vp8-zero-height", bad(func(d []byte) { d[8], d[9] = 0, 0x40 }))
+	add("vp8-scale-bits", bad(func(d []byte) { d[7] |= 0xc0; d[9] |= 0x80 }))
+	add("vp8-9-bytes", riffFile(chunkBytes("VP8 ", p.VP8[:9])))
+	badl := func(mut func([]byte)) []byte { d := append([]byte(nil), p.VP8L...); mut(d); return riffFile(chunkBytes("VP8L", d)) }
+	add("vp8l-bad-magic", badl(func(d []byte) { d[0] = 0x2e }))
+	add("vp8l-version-1", badl(func(d []byte) { d[4] |= 0x20 }))
+	add("vp8l-4-bytes", riffFile(chunkBytes("VP8L", p.VP8L[:4])))
+	add("vp8l-alpha-bit-clear", riffFile(chunkBytes("VP8L", p.VP8LNoBit)))
+	// VP8X
+	for _, fl := range []byte{0x01, 0x40, 0x80, 0xc1, 0x3e} {
+		add(fmt.Sprintf("vp8x-flags-%02x", fl), riffFile(append(chunkBytes("VP8X", vp8xPayload(fl, p.W, p.H)), vp8...)))
+	}
+	add("vp8x-canvas-2^24-square", riffFile(append(chunkBytes("VP8X", vp8xPayload(0, 1<<24, 1<<24)), vp8...)))
+	add("vp8x-canvas-32768x32768", riffFile(append(chunkBytes("VP8X", vp8xPayload(0, 32768, 32768)), vp8...)))
+	add("vp8x-canvas-32768x32767", riffFile(append(chunkBytes("VP8X", vp8xPayload(0, 32768, 32767)), vp8...)))
+	add("vp8x-size-9", riffFile(append(chunkBytes("VP8X", vp8xPayload(0, p.W, p.H)[:9]), vp8...)))
+	add("vp8x-only", riffFile(chunkBytes("VP8X", vp8xPayload(0, p.W, p.H))))
+	add("vp8x-only-anim", riffFile(chunkBytes("VP8X", vp8xPayload(2, p.W, p.H))))
+	add("vp8x-twice", riffFile(append(append(chunkBytes("VP8X", vp8xPayload(0, p.W, p.H)), chunkBytes("VP8X", vp8xPayload(0, p.W, p.H))...), vp8...)))
+	add("vp8x-then-7-bytes", append(riffFile(chunkBytes("VP8X", vp8xPayload(0, p.W, p.H))), 1, 2, 3, 4, 5, 6, 7))
+	add("vp8x-alph-then-unknown", riffFile(append(append(chunkBytes("VP8X", vp8xPayload(0x10, p.W, p.H)), chunkBytes("ALPH", p.ALPH)...), chunkBytes("UNKN", nil)...)))
+	add("vp8x-alph-only", riffFile(append(chunkBytes("VP8X", vp8xPayload(0x10, p.W, p.H)), chunkBytes("ALPH", p.ALPH)...)))
+	// MaxChunks: 1000 unknown chunks are kept, the 1001st is an error
+	for _, n := range []int{999, 1000, 1001} {
+		body := chunkBytes("VP8X", vp8xPayload(0, p.W, p.H))
+		for i := 0; i < n; i++ {
+			body = append(body, chunkBytes("UNKN", nil)...)
+		}
+		add(fmt.Sprintf("unknown-chunks-%d", n), riffFile(append(body, vp8...)))
+	}
+	// animation limits
+	anim := chunkBytes("ANIM", []byte{1, 2, 3, 4, 5, 0})
+	frame := chunkBytes("ANMF", anmfPayload(0, 0, p.W, p.H, 10, 0, chunkBytes("VP8 ", p.VP8)))
+	animHead := append(chunkBytes("VP8X", vp8xPayload(2, p.W, p.H)), anim...)
+	add("anmf-area-too-large", riffFile(append(append([]byte(nil), animHead...), chunkBytes("ANMF", anmfPayload(0, 0, 32768, 32768, 10, 0, chunkBytes("VP8 ", p.VP8)))...)))
+	add("anmf-max-offsets", riffFile(append(append([]byte(nil), animHead...), chunkBytes("ANMF", anmfPayload(2*0xffffff, 2*0xffffff, p.W, p.H, 0xffffff, 3, chunkBytes("VP8 ", p.VP8)))...)))
+	add("anim-flag-clear-with-anim-chunks", riffFile(append(append(chunkBytes("VP8X", vp8xPayload(0, p.W, p.H)), anim...), frame...)))
+	add("anim-flag-clear-anim-then-image", riffFile(append(append(chunkBytes("VP8X", vp8xPayload(0, p.W, p.H)), anim...), vp8...)))
+	if thorough {
+		// MaxFrames (10000) itself is not exercised: the extracted list-based model needs minutes per
+		// such file; the limit's constant is tied to the source by C17_consts_match_source.
+		for _, n := range []int{300} {
+			body := append([]byte(nil), animHead...)
+			for i := 0; i < n; i++ {
+				body = append(body, frame...)
+			}
+			add(fmt.Sprintf("frames-%d", n), riffFile(body))
+		}
+	}
+	return out
 }
 
 func main() {
@@ -521,6 +717,17 @@ func main() {
 			data, wf := pl.build(p, r)
 			kind := fmt.Sprintf("rand-%s-alph%d-flags%d-order%d-unk%d-x%d-canvas%d", pl.Image, pl.AlphKind, pl.FlagMode, pl.MetaOrder, pl.Unknown, pl.VP8XSize, pl.CanvasMode)
 			files = append(files, c16File{Kind: kind, Data: data, WF: wf})
+		}
+		// 4b. hand-assembled animations (well-formed and malformed ANIM / ANMF structure)
+		for i := 0; i < nplans/2; i++ {
+			r := rng.Fork()
+			p := &parts[r.Intn(len(parts))]
+			data, wf, kind := handAnim(p, r)
+			files = append(files, c16File{Kind: kind, Data: data, WF: wf, Animated: true})
+		}
+		// 4c. one file per error branch / limit of the parser
+		for pi := range parts[:1] {
+			files = append(files, edgeFiles(&parts[pi], c.Thorough())...)
 		}
 		// 5. format registration: near-misses of the magic
 		base := files[0].Data
